@@ -1,6 +1,7 @@
 package main
 
 import (
+	"os"
 	"fmt"
 	"go/types"
 	"math"
@@ -1184,6 +1185,17 @@ func buildIntrinsics() map[string]intrinsic {
 	// ---- hash.GenHashMurMur: uninterpreted function of the key bytes (deterministic, collisions possible) ----
 	reg("github.com/ryogrid/SamehadaDB/lib/container/hash.GenHashMurMur", func(ex *Exec, fr *frame, fn *ssa.Function, args []Value) Value {
 		bs := ex.sliceByteTerms(args[0].(ByteSlice), "GenHashMurMur key")
+		allConc := true
+		for _, b := range bs {
+			if !b.IsConst() {
+				allConc = false
+				break
+			}
+		}
+		if allConc && os.Getenv("GOSYM_MURMUR_UF_ALWAYS") == "" {
+			// concrete key: run the real implementation (exact hash, no artificial collisions between constants)
+			return ex.callFnBody(fr, fn, args, nil)
+		}
 		return ex.tc.UF(fmt.Sprintf("murmur%d", len(bs)), 32, bs...)
 	})
 
